@@ -179,6 +179,7 @@ MEMORY_DEF_NAMES = (
     + python3_11.MODIFY_DEREF_NAMES
     + python3_10.MODIFY_ATTR_NAMES
     + python3_11.IMPORT_NAME_NAMES  # compensate incorrect stack effect for IMPORT_NAME
+    + python3_10.ACCESS_SUBSCR_NAMES
     + ACCESS_SLICE_NAMES
 )
 
